@@ -223,6 +223,23 @@ static void run_case(vh::Ctx & c, vh::Rng & r, CaseData & cd)
         {"scale", (double)cd.scale}, {"noise_rel", (double)(cd.noise / cd.radius)}};
     };
 
+  // rounding that no solver can avoid: the residual (t - s).n is formed with an error relative to
+  // |t - s| (not to its value), and the preconditioned variants receive coordinates re-rounded
+  // after scaling, i.e. perturbed by eps |p| *before* the difference t - s is taken
+  LD Dts = 0, pmax2 = 0, spmax = 0;
+  for (size_t i = 0; i < s_used.size(); ++i) {
+    Dts += (t_used[i] - s_used[i]).squaredNorm();
+    pmax2 = std::max(pmax2, t_used[i].norm() + s_used[i].norm());
+    spmax = std::max(spmax, s_used[i].norm());
+  }
+  Dts = sqrtl(Dts);
+  const LD sqn = sqrtl((LD)cd.n);
+  auto Gbound = [&](LD cnd, const VecL & xx, bool pre) {
+      LD g = 16 * eps * (cnd * pb.JtY.norm() + sqn * pb.normJ * Dts + pb.JtJ.norm() * xx.norm());
+      if (pre) {g += pb.smax * sqn * 2 * eps * (pmax2 + spmax * xx.tail(m - d).norm());}
+      return g;
+    };
+
   std::vector<VecL> xs;
   for (size_t k = 0; k < vs.size(); ++k) {
     const MatL & H = vs[k].H;
@@ -246,16 +263,16 @@ static void run_case(vh::Ctx & c, vh::Rng & r, CaseData & cd)
     // problem, whose conditioning governs their rounding
     LD cnd = pre ? std::max(pb.cond, ps.cond) : pb.cond;
     if (16 * eps * cnd >= 1e-2L) {c.skip(pre ? "normal_eq:vacuous_precond" : "normal_eq:vacuous"); continue;}
-    LD G = 16 * eps * (cnd * pb.JtY.norm() + sqrtl((LD)cd.n) * pb.normJ * pb.normY + pb.JtJ.norm() * x.norm());
+    LD G = Gbound(cnd, x, pre);
     LD grad = (pb.JtJ * x - pb.JtY).norm();
     c.expect_le(pre ? "normal_equations.precond" : "normal_equations", grad, G, "normal_equations_residual", params, wit);
     LD xtol = G / (pb.smin * pb.smin);
     // recovery of the motion
     VecL xt(m); xt.head(d) = cd.ttrue; xt.tail(m - d) = cd.wtrue;
     if (cd.noise == 0) {
-      // the true motion leaves linearisation residuals |r_i| <= theta^2/2 |s_i| (+ rounding of the targets)
+      // the true motion leaves linearisation residuals |r_i| <= (theta^2/2 + theta^3/6) |s_i| (+ rounding of the targets)
       LD smax = 0; for (auto & s : s_used) {smax = std::max(smax, s.norm());}
-      LD lin = sqrtl((LD)cd.n) * 0.5L * cd.theta * cd.theta * smax * 1.01L / pb.smin;
+      LD lin = sqrtl((LD)cd.n) * (0.5L * cd.theta * cd.theta + cd.theta * cd.theta * cd.theta / 6) * smax * 1.001L / pb.smin;
       LD rnd = sqrtl((LD)cd.n) * 4 * eps * (smax + cd.tnorm) / pb.smin;
       LD err = (x - xt).norm();
       const char * o = cd.theta == 0 ? "recovers_pure_translation" : "recovers_rotation_O(theta^2)";
@@ -267,7 +284,7 @@ static void run_case(vh::Ctx & c, vh::Rng & r, CaseData & cd)
     if (xs[0].size() == 0 || xs[k].size() == 0) {continue;}
     LD cnd = std::max(pb.cond, ps.cond);
     if (16 * eps * cnd >= 1e-2L) {c.skip("variants_agree:vacuous"); continue;}
-    LD G = 16 * eps * (cnd * pb.JtY.norm() + sqrtl((LD)cd.n) * pb.normJ * pb.normY + pb.JtJ.norm() * xs[0].norm());
+    LD G = Gbound(cnd, xs[0], true);
     LD tol = 2 * G / (pb.smin * pb.smin);
     c.expect_le("variants_agree", (xs[k] - xs[0]).norm(), tol, "variant_disagreement", params, [&]() {
         return vh::J().s("a", vs[0].name).s("b", vs[k].name).raw("xa", vh::jvec(xs[0])).raw("xb", vh::jvec(xs[k]))
